@@ -366,6 +366,29 @@ def carry_eval_parent(prog: Program) -> RuleResult:
                 "every upward read is dominated by the assignment of this evaluation's parent",
                 f"`{bad[1] if bad else ''}` is read at line {bad[0].lineno if bad else 0}, before `{src(assigns[0].stmt)}`: the node still sees the parent of its previous evaluation - a sub-expression "
                 "shared by two queries in different roles (f = x.flag; entity(x, f) and entity(x, f == False)) judges its value by the role it had in the query evaluated before")
+    # ... and nobody else writes it: a suspended evaluation reads the field lazily (the second pass of a disjunction asks an operand where it
+    # stands for every value it pulls), so whatever runs in between - a second evaluate() of the same query and its reset of every node,
+    # a helper that tidies up - must leave the field to the evaluations themselves
+    writers = []
+    for g in sorted(prog.functions.values(), key=lambda x: x.qual):
+        if not g.module.name.startswith(se.module.name.rsplit(".", 1)[0]):
+            continue
+        for x in walk_local(g.node):
+            tg = x.targets if isinstance(x, ast.Assign) else [x.target] if isinstance(x, (ast.AugAssign, ast.AnnAssign)) else x.targets if isinstance(x, ast.Delete) else []
+            for t in tg:
+                if isinstance(t, ast.Attribute) and t.attr == "_eval_parent_":
+                    writers.append((g, x))
+            if isinstance(x, ast.Call) and isinstance(x.func, ast.Name) and x.func.id in ("setattr", "delattr") and len(x.args) >= 2 and isinstance(x.args[1], ast.Constant) and x.args[1].value == "_eval_parent_":
+                writers.append((g, x))
+    # (the setter of the structural parent also clears it: that is tree surgery while a query is written, not part of any evaluation)
+    def _is_parent_setter(g) -> bool:
+        return g.name == "_parent_" and any(isinstance(d, ast.Attribute) and d.attr == "setter" for d in g.node.decorator_list)
+
+    outside = [(g, x) for g, x in writers if g.name not in ("_evaluate__", "__init__", "__post_init__") and not _is_parent_setter(g)]
+    r.check(bool(writers) and not outside, "_eval_parent_#written-by-evaluations-only", site(outside[0][0], outside[0][1]) if outside else "", f"{len(writers)} write(s): entries of _evaluate__ and the setter of the structural parent" if not outside else src(outside[0][1]),
+            "the field is written where an evaluation enters a node and nowhere else",
+            f"{outside[0][0].short if outside else ''} writes the field ({src(outside[0][1])[:60] if outside else ''}): it runs between two steps of a suspended evaluation (every evaluate() resets "
+            "every node of the query first), and the suspended evaluation then judges the values it pulls next by the node's place in the tree instead of its place in that evaluation")
     return r
 
 
